@@ -96,7 +96,7 @@ RatioOne == \A t \in 1..Len(rows) :
                /\ cfg.V[PIdx(rows[t].obs) + 1] = rows[t].val
 
 \* the environment only ever saw in-bounds actions when the collector clips (box action space)
-EnvSawClipped == OuterA.kind = "box" /\ OuterA.lo > -M!INF /\ M!Depth = 0 =>
+EnvSawClipped == OuterA.kind = "box" /\ OuterA.lo > -M!INF /\ OuterA.hi < M!INF /\ M!Depth = 0 =>
                     \A i \in 1..Len(seen) : seen[i].idx # cfg.nA + 1
 
 \* a true termination never bootstraps; a step ended only by truncation gets gamma*V(successor observation)
